@@ -235,6 +235,26 @@ def check_timeout(fx, R, ft, cst):
                 x, 'reports' if got else 'does not report', tp.cond[0][0]), fx.rel(ft['loc']), 'E-ORD')
         else:
             R.holds('M3', inst, 'timeout=%s' % got, fx.rel(ft['loc']), 'E-ORD')
+    # the state the predicate calls "has data" must be established by EVERY path of update(): a stamp has been seen from the first one on
+    fu_ = fx.one(NS + 'RateMonitoring::update') if 'NS' in globals() else None
+    if fu_ is None:
+        fu_ = next((f_ for f_ in fx.functions.values() if f_['q'].endswith('RateMonitoring::update')), None)
+    if fu_ is not None and any(s.name == 'this.hasData_' for s in state_syms):
+        try:
+            for st_ in sym.Reader(fx).run(fu_):
+                hv = st_.fields.get(fld('hasData_'))
+                desc = ' && '.join(('' if c[2] else '!') + '(' + c[0] + ')' for c in st_.cond)
+                if hv is None or (isinstance(hv, sp.Symbol) and hv.name == 'this.hasData_'):
+                    R.violated('M3', 'RateMonitoring::update:has-data', 'on the path [%s] update() does not set hasData_, which the timeout predicate requires: a heartbeat more than 0.5 s after a stamp seen on this '
+                               'path is not reported as a timeout (no STALE report), although a data stamp has been seen' % desc, fx.rel(fu_['loc']), 'E-STATE')
+                    break
+                if hv not in (1, sp.true, sp.Integer(1)):
+                    R.undecided('M3', 'RateMonitoring::update:has-data', 'hasData_ becomes %s on the path [%s]' % (hv, desc))
+                    break
+            else:
+                R.holds('M3', 'RateMonitoring::update:has-data', 'every path of update() sets hasData_', fx.rel(fu_['loc']), 'E-STATE')
+        except sym.Unsupported as u:
+            R.undecided('M3', 'RateMonitoring::update:has-data', str(u))
     nodata = [evaluate(x, False) for x in WITNESS_NS]
     R.check(all(v is False for v in nodata), 'M3', 'RateMonitoring::timeout:no-data', 'before any data stamp the predicate evaluates to %s on the witnesses' % nodata,
             'never a timeout before the first stamp', fx.rel(ft['loc']), 'E-ORD')
